@@ -34,13 +34,14 @@ type Env struct {
 	Tx        *txfile.Tx
 	hdrIssued bool
 
-	EverOverflow bool // some transaction enabled the overflow area on this file
-	ExtentLimit  uint // bound of the file extent after a max size change (0: the configured max size)
-	opening      bool // a file is being opened (its internal transactions are observed)
-	openGID      uint64
-	switched     bool // the running commit passed commit/switched
-	injAtBegin   int  // injected failures at the begin of the running transaction
-	inCommit  bool
+	EverOverflow  bool // some transaction enabled the overflow area on this file
+	ExtentLimit   uint // bound of the file extent after a max size change (0: the configured max size)
+	opening       bool // a file is being opened (its internal transactions are observed)
+	openGID       uint64
+	switched      bool // the running commit passed commit/switched
+	injAtBegin    int  // injected failures at the begin of the running transaction
+	inCommit      bool
+	kindByContent map[[2]uint64]string // (page id, content hash) -> kind of a scheduled write
 
 	// bookkeeping of the driver (to generate valid operations; never used for verdicts)
 	Live    map[uint64]bool // pages live in the committed state
@@ -224,6 +225,14 @@ func (e *Env) sink(ev txfile.VerifEvent) {
 		}
 		e.mu.Lock()
 		e.kinds[uint64(ev.ID)] = k
+		// the write happens later, on the writer's goroutine: by then the same page id may have
+		// been scheduled again with another kind - remember the kind by content as well
+		if len(ev.Buf) > 0 {
+			if e.kindByContent == nil {
+				e.kindByContent = map[[2]uint64]string{}
+			}
+			e.kindByContent[[2]uint64{uint64(ev.ID), contentHash(ev.Buf)}] = k
+		}
 		e.mu.Unlock()
 	case "commit/pending":
 		e.phase, e.inCommit, e.hdrIssued = "data", true, false
@@ -288,6 +297,14 @@ func (e *Env) contentOf(pg uint64, b []byte, kind string, complete bool) map[str
 	return map[string]interface{}{"k": "D", "q": q}
 }
 
+func contentHash(b []byte) uint64 {
+	h := uint64(14695981039346656037)
+	for _, c := range b {
+		h = (h ^ uint64(c)) * 1099511628211
+	}
+	return h
+}
+
 func regList(rs []Region) [][2]uint64 {
 	out := make([][2]uint64, 0, len(rs))
 	for _, r := range rs {
@@ -314,8 +331,12 @@ func (e *Env) OnDiskOp(op *simdisk.Op) {
 				end = len(op.Data)
 			}
 			pg := uint64(op.Off+int64(off)) / uint64(e.PS)
+			chunk := op.Data[off:end]
 			e.mu.Lock()
 			kind := e.kinds[pg]
+			if k, ok := e.kindByContent[[2]uint64{pg, contentHash(chunk)}]; ok && end-off == e.PS {
+				kind = k
+			}
 			e.mu.Unlock()
 			if pg < 2 {
 				kind = "H"
@@ -323,7 +344,6 @@ func (e *Env) OnDiskOp(op *simdisk.Op) {
 			if kind == "" {
 				kind = "D"
 			}
-			chunk := op.Data[off:end]
 			complete := !op.Err || end-off == e.PS
 			if kind == "H" {
 				complete = len(chunk) >= HdrSize
@@ -633,6 +653,7 @@ func (e *Env) endTx(committed bool) {
 	e.switched = false
 	e.Tx, e.TxNew, e.TxFreed, e.TxDirty, e.TxFlush = nil, nil, nil, nil, nil
 	e.inCommit = false
+	e.phase = "data"
 }
 
 // Commit commits the write transaction.
